@@ -491,13 +491,14 @@ package core
 //@   property C01,C06
 //@   modifies[C01,C06,@input-bytes-untouched] nothing
 // The indentation removed from a Description is an initial segment of EVERY non-empty line (C08: re-indenting the document
-// uniformly must not leave absolute indentation in the catalog; a line that is skipped keeps its own). Two facts about
-// initial segments are axioms: a slice's own initial segments, and an initial segment of an initial segment.
+// uniformly must not leave absolute indentation in the catalog; a line that is skipped keeps its own). Three facts about
+// initial segments are axioms: a slice's own initial segments, the empty one, and an initial segment of an initial segment.
 //@ func longestWhitespacePrefix(bb)
 //@   property C01,C06,C08
 //@   requires 0 <= bb.off
 //@   modifies[C01,C06,@input-bytes-untouched] nothing
 //@   axiom forallp(a, o, n, k, hasPrefixB(a, o, n, a, o, k), imp(0 <= k && k <= n, hasPrefixB(a, o, n, a, o, k)))
+//@   axiom forallp(sa, so, sn, pa, po, hasPrefixB(sa, so, sn, pa, po, 0), hasPrefixB(sa, so, sn, pa, po, 0))
 //@   axiom forallp(sa, so, sn, pa, po, pn, m, hasPrefixB(sa, so, sn, pa, po, pn), hasPrefixB(sa, so, sn, pa, po, m),
 //@       imp(hasPrefixB(sa, so, sn, pa, po, pn) && 0 <= m && m <= pn, hasPrefixB(sa, so, sn, pa, po, m)))
 //@   ensures[C08,@common-indentation] forallp(j, at(bb, j), imp(bb.off <= j && j < bb.off + len(bb) && len(at(bb, j)) != 0,
